@@ -100,11 +100,15 @@ def generate(ctx):
                "red_via": rng.choice(["constructor", "accumulator"]), "dtype": rng.choice(["float32", "float64"]),
                "inside": inside, "seed": rng.randrange(1 << 30), "ops": ops,
                "shape": [rng.randint(1, 3), rng.randint(1, 4)]}
-    for _ in range(60 if th else 8):
-        yield {"part": "longrun", "bound": rng.choice(["multiplicative", "scaled_multiplicative", "scaled_power", "sharp"]),
-               "half": rng.choice(["both", "full"]), "power": rng.choice([1.0, 2.0, 3.0]),
-               "steps": 5000, "seed": rng.randrange(1 << 30), "dtype": rng.choice(["float32", "float64"]),
-               "start": rng.choice(["inside", "at_limits", "outside"]), "shape": [2, 3]}
+    combos = list(itertools.product(["multiplicative", "scaled_multiplicative", "scaled_power", "sharp"],
+                                    ["both", "full"], ["inside", "at_limits", "outside"]))
+    for rep in range(3 if th else 1):
+        for i, (kind, half, start) in enumerate(combos):
+            if i % ctx.nshards != ctx.shard % len(combos):
+                continue
+            yield {"part": "longrun", "bound": kind, "half": half, "power": rng.choice([1.0, 2.0, 3.0]),
+                   "steps": 5000 if th else 1500, "seed": rng.randrange(1 << 30),
+                   "dtype": ["float32", "float64"][(i + rep) % 2], "start": start, "shape": [2, 3]}
 
 
 def _np(t):
@@ -373,6 +377,11 @@ def _longrun(ctx, desc):
     slack = 0.0 if tdt == torch.float64 else 4e-7 * max(abs(mx), abs(mn))
     slack = max(slack, 1e-15)
     for t in range(desc["steps"]):
+        if sharp and desc["start"] == "at_limits" and t % 25 == 0:
+            # put two elements exactly on the limits again (a parameter that has just reached its limit)
+            w = conn.weight.detach().clone()
+            w[0, 0], w[0, 1] = mx, mn
+            conn.weight = w
         before = _np(conn.weight)
         nparts = 1 + (t % 3)
         # several trainers; magnitudes chosen so the REDUCED (summed) magnitude stays within the cap
